@@ -259,23 +259,35 @@ theorem C19_factor (logit z : ℝ) :
       lbLogProb TR logit z = lbTlogProb TR logit (lbThreshold z) + c := by
   refine ⟨-z + (1 - lbThreshold z) * logit + TR.log1p (TR.exp logit)
       - 2 * TR.log1p (TR.exp (logit - z)), by simp [lbClogProb], ?_⟩
-  have hpos : 0 < 1 + Real.exp logit := by have := Real.exp_pos logit; linarith
-  have hs := lb_sigmoid_eq logit
-  have h1 : Real.log (TR.sigmoid logit) = logit - Real.log (1 + Real.exp logit) := by
-    rw [hs, Real.log_div (Real.exp_pos logit).ne' hpos.ne', Real.log_exp]
-  have h0 : Real.log (1 - TR.sigmoid logit) = - Real.log (1 + Real.exp logit) := by
-    have : 1 - TR.sigmoid logit = (1 + Real.exp logit)⁻¹ := by
-      rw [hs]; field_simp; ring
-    rw [this, Real.log_inv]
   have hb : lbThreshold z = 0 ∨ lbThreshold z = 1 := by
     unfold lbThreshold; split <;> simp
   simp only [lbLogProb, lbTlogProb, Transc.log1p]
   have e1 : TR.log = Real.log := rfl
   have e2 : TR.exp = Real.exp := rfl
-  rw [e1, e2, h1, h0]
+  rw [e1, e2, log1p_exp_neg]
   rcases hb with h | h <;> rw [h] <;> ring
 
+/-- **C19_tlog_doc**: the form of `-binary_cross_entropy_with_logits` the model executes equals the
+documented `b log σ(l) + (1 - b) log(1 - σ(l))`, for every real `l` and EVERY `b`. -/
+theorem C19_tlog_doc (logit b : ℝ) :
+    lbTlogProb TR logit b
+      = b * Real.log (TR.sigmoid logit) + (1 - b) * Real.log (1 - TR.sigmoid logit) :=
+  lbTlogProb_eq_doc logit b
 
+/-- **C19_threshold_clamped**: `threshold(csample(b)) = b` for the code AS CALLED — `probs` and the
+uniform draw both pass through `clamp_probs` — for EVERY real `probs` and draw (in particular
+`probs ∈ {0, 1}`, draws `∈ {0, 1}`) and every `0 < eps < 1/2`.  Dropping either clamp falsifies it
+(`p = 1`, `b = 1` divides by `0`): this is the clause seed C19-a3 breaks. -/
+theorem C19_threshold_clamped (eps p v b : ℝ) (hb : b = 0 ∨ b = 1) (h0 : 0 < eps) (h1 : eps < 1 / 2) :
+    lbThreshold (lbCsampleC TR eps p v b) = b := by
+  obtain ⟨hp, hp1⟩ := clampProbs_mem eps p h0 h1
+  obtain ⟨hv, hv1⟩ := clampProbs_mem eps v h0 h1
+  exact C19_threshold eps _ _ b hb h0.le hp hp1 hv hv1
+
+/-- and the clamped conditional sample is the unclamped one wherever the clamp is inactive -/
+theorem C19_csampleC_eq (eps p v b : ℝ) (hp : eps ≤ p) (hp1 : p ≤ 1 - eps) (hv : eps ≤ v)
+    (hv1 : v ≤ 1 - eps) : lbCsampleC TR eps p v b = lbCsample TR eps p v b := by
+  simp only [lbCsampleC, clampProbs_id eps p hp hp1, clampProbs_id eps v hv hv1]
 
 /-- **C19_rsample_threshold**: with `logits = log(p/(1-p))`, the thresholded relaxed sample is 1
 exactly when `u ≥ 1 - p`; so under `u ~ U(0,1)` it is Bernoulli(`p`). -/
@@ -334,8 +346,10 @@ section Gumbel
 variable {α : Type} [Field α] [LinearOrder α] [IsStrictOrderedRing α]
 
 /-- **C19_threshold_cat**: for a one-hot `b` (hot at `k`), `threshold(csample(b)) = b` for every
-choice of the uniform draws and of `probs` — whatever `log` returns: the `min(z_k − eps, ·)` guard
-alone makes `z_k` the strict maximum (`eps > 0`). -/
+choice of the uniform draws and of `probs` — whatever `log` returns: the
+`min(z_k − eps·max(1,|z_k|), ·)` guard alone makes `z_k` the strict maximum (`eps > 0`).  Over an
+ordered field any positive margin does; in floating point only a relative one survives rounding
+(finding `C19.gumbel.csample_guard_absorbed`, fixes/C19-gumbel-guard.diff). -/
 theorem C19_threshold_cat (T : Transc α) (eps : α) (heps : 0 < eps) (probs vs b : List α)
     (k V : Nat) (hb : b.length = V) (hp : probs.length = V) (hv : vs.length = V) (hk : k < V)
     (hbk : b[k]'(by omega) = 1) (hb0 : ∀ j (hj : j < V), j ≠ k → b[j]'(by omega) = 0) :
@@ -352,8 +366,15 @@ theorem C19_threshold_cat (T : Transc α) (eps : α) (heps : 0 < eps) (probs vs 
   have hnml : nomat.length = V := by simp [hnm, hlv, hp]
   have hzl : z.length = V := by
     simp [hz, gCsample, hv, hb, hp]
+  have hg : zk - eps * absClampMin1 zk < zk := by
+    have h1 : (1 : α) ≤ absClampMin1 zk := by
+      simp only [absClampMin1]
+      split_ifs <;> first | exact le_refl _ | (rename_i h; exact not_lt.mp h)
+    have : 0 < eps * absClampMin1 zk := mul_pos heps (lt_of_lt_of_le one_pos h1)
+    linarith
   have hzj : ∀ j (hj : j < V), z[j]'(by omega)
-      = zmatch[j]'(by omega) + (if zk - eps < nomat[j]'(by omega) then zk - eps else nomat[j]'(by omega))
+      = zmatch[j]'(by omega) + (if zk - eps * absClampMin1 zk < nomat[j]'(by omega)
+            then zk - eps * absClampMin1 zk else nomat[j]'(by omega))
           * (1 - b[j]'(by omega)) := by
     intro j hj
     simp [hz, gCsample, hzm, hnm, hzk, hs, hlogv]
@@ -393,6 +414,14 @@ theorem C19_threshold_cat (T : Transc α) (eps : α) (heps : 0 < eps) (probs vs 
     by_cases hjk : j = k
     · subst hjk; rw [if_pos rfl, hbk]
     · rw [if_neg hjk, hb0 j hjV hjk]
+
+/-- **C19_threshold_cat_clamped**: the same for `csample` as called (`probs` and draws through
+`clamp_probs`): the clamps are irrelevant for this clause, the `min(z_k − eps, ·)` guard decides. -/
+theorem C19_threshold_cat_clamped (T : Transc α) (eps : α) (heps : 0 < eps) (probs vs b : List α)
+    (k V : Nat) (hb : b.length = V) (hp : probs.length = V) (hv : vs.length = V) (hk : k < V)
+    (hbk : b[k]'(by omega) = 1) (hb0 : ∀ j (hj : j < V), j ≠ k → b[j]'(by omega) = 0) :
+    gThreshold (gCsampleC T eps probs vs b) = b :=
+  C19_threshold_cat T eps heps _ _ b k V hb (by simp [hp]) (by simp [hv]) hk hbk hb0
 
 end Gumbel
 
